@@ -24,7 +24,6 @@ CONSTANTS
   Budget = 2
 SPECIFICATION Spec
 VIEW StView
-CONSTRAINT WithinBudget
 INVARIANTS TypeOK ProgramViewsAgree DataViewsAgree A32Alias MmioWindow WindowMoves PagedStaysInData
-PROPERTIES ReadsArePure WindowNeverTouchesMemory MmioNeverTouchesMemory WritesHitOneCell AssertChangesNothing
+PROPERTIES ReadsArePure WindowNeverTouchesMemory MmioNeverTouchesMemory WritesHitOneCell ResetZeroesMemory AssertChangesNothing
 CHECK_DEADLOCK FALSE
